@@ -58,6 +58,10 @@ enum Node {
     /// a style rule whose interpolated selector does not parse: ends the compilation with an
     /// error whose text is not part of the expectation (only its file and its validity are)
     BadSelector { tag: u32 },
+    /// one SCSS line whose evaluation fails with an error of the implementation's own wording,
+    /// in which two files take part (e.g. a suffixed `&` from a mixin of an imported file under
+    /// a rule of this file): the error may name either file, but must be valid for the one it names
+    RawError { tag: u32, text: String },
     /// include of a mixin that is defined in an imported file (entry only, after the import)
     IncludeForeign { file: usize, mixin: usize, arg: i64, content: Option<Vec<Node>> },
 }
@@ -74,6 +78,8 @@ struct Callable {
 struct FileAst {
     path: String,
     sass: bool,
+    /// raw SCSS appended after the body (definitions only, no deliveries)
+    tail: String,
     /// files loaded with @use at the top (each module is used from exactly one place)
     uses: Vec<usize>,
     mixins: Vec<Callable>,
@@ -449,6 +455,10 @@ impl Printer {
                         }
                     }
                 }
+                Node::RawError { tag, text } => {
+                    self.lines.insert(*tag, self.line + 1);
+                    self.ln(indent, text);
+                }
                 Node::BadSelector { tag } => {
                     self.lines.insert(*tag, self.line + 1);
                     if self.sass {
@@ -497,6 +507,9 @@ impl Printer {
             self.close(0);
         }
         self.block(0, &f.body, f, all);
+        for l in f.tail.lines() {
+            self.ln(0, l);
+        }
     }
 }
 
@@ -690,6 +703,10 @@ impl<'a> Exec<'a> {
                     self.error = Some(Expected { kind: "error".into(), file: self.files[fi].path.clone(), line: self.lines[fi][tag], msg: "*".into() });
                     return false;
                 }
+                Node::RawError { tag, .. } => {
+                    self.error = Some(Expected { kind: "error".into(), file: "*".into(), line: self.lines[fi][tag], msg: "*".into() });
+                    return false;
+                }
                 Node::IncludeForeign { file, mixin, arg, content: c } => {
                     // the mixin's directives live in the file that defines it, the content block's in this one
                     let m = &self.files[*file].mixins[*mixin];
@@ -809,7 +826,7 @@ pub fn gen_script(rng: &mut Rng, root: &str) -> Script {
                 }
             }
         }
-        files.push(FileAst { path, sass, uses: if i == 0 { usable.clone() } else { vec![] }, mixins, funcs, body });
+        files.push(FileAst { path, sass, tail: String::new(), uses: if i == 0 { usable.clone() } else { vec![] }, mixins, funcs, body });
     }
     // the entry includes mixins that an imported file defines (after the first import of that file):
     // their directives, and any error in them, are located in the imported file
@@ -838,6 +855,23 @@ pub fn gen_script(rng: &mut Rng, root: &str) -> Script {
             body.insert(pos + k, node);
         }
         files[0].body = body;
+    }
+    // an error in which two files take part: a mixin of an imported SCSS file uses a suffixed
+    // parent reference; the entry includes it under a rule whose selector cannot take a suffix
+    let mut cross_file_error = false;
+    if !files[0].sass && g.rng.chance(0.12) {
+        let pos_file = files[0].body.iter().enumerate().find_map(|(pos, n)| match n {
+            Node::Import { file } if !files[*file].sass => Some((pos, *file)),
+            _ => None,
+        });
+        if let Some((pos, k)) = pos_file {
+            let tag = g.tag();
+            files[k].tail.push_str(&format!("@mixin sfx{}() {{ &-sfx {{ x: y; }} }}\n", tag));
+            let sel = *g.rng.pick(&["[data-k]", "*", ":not(.q)", ".p > "]);
+            let text = if sel.ends_with("> ") { format!(".p {{ > {{ @include sfx{}; }} }}", tag) } else { format!("{} {{ @include sfx{}; }}", sel, tag) };
+            files[0].body.insert(pos + 1, Node::RawError { tag, text });
+            cross_file_error = true;
+        }
     }
     // give content blocks to includes of mixins that use @content
     for fi in 0..files.len() {
@@ -874,7 +908,7 @@ pub fn gen_script(rng: &mut Rng, root: &str) -> Script {
         files[fi].body = body;
     }
     // optional @error
-    if g.rng.chance(0.35) {
+    if !cross_file_error && g.rng.chance(0.35) {
         let target = g.rng.usize_below(files.len());
         let tag = g.tag();
         let mut body = std::mem::take(&mut files[target].body);
@@ -1017,7 +1051,7 @@ fn judge(job: &JobSpec, expected: &[Expected], error: &Option<Expected>, mode: &
             (Some(ee), Outcome::Err(e)) => {
                 if ee.msg == "*" {
                     // an error of the implementation's own wording: it must be a located error in the right file
-                    if e.kind != "parse" || normalize(&job.cwd, &e.file) != normalize(&job.cwd, &ee.file) {
+                    if e.kind != "parse" || (ee.file != "*" && normalize(&job.cwd, &e.file) != normalize(&job.cwd, &ee.file)) {
                         v.push(("error-mismatch".into(), format!("expected a located error in {}, got kind={} in {:?}: {}", ee.file, e.kind, e.file, e.message)));
                     }
                 } else if e.kind != "parse" || e.message != ee.msg || e.line != ee.line || normalize(&job.cwd, &e.file) != normalize(&job.cwd, &ee.file) {
